@@ -306,10 +306,16 @@ def enumerate_specs(tier):
         for op in ("softmax", "log_softmax"):
             for n in ((2,) if tier == "quick" else (2, 3)):
                 specs.append({"op": op, "dtype": dt, "shape": [n]})
+            # two rows whose maxima may be far apart (each row must be shifted by its own maximum)
+            specs.append({"op": op, "dtype": dt, "shape": [2, 1] if tier == "quick" else [2, 2]})
         for c in ((2,) if tier == "quick" else (2, 3)):
             for lab in range(c):
                 specs.append({"op": "cross_entropy", "dtype": dt, "shape": [1, c], "labels": [lab], "via": "F"})
             specs.append({"op": "cross_entropy", "dtype": dt, "shape": [1, c], "labels": [c - 1], "via": "M"})
+        if tier == "quick":
+            specs.append({"op": "cross_entropy", "dtype": dt, "shape": [2, 1], "labels": [0, 0], "via": "F"})
+        else:
+            specs.append({"op": "cross_entropy", "dtype": dt, "shape": [2, 2], "labels": [0, 1], "via": "F"})
         specs.append({"op": "bce_with_logits", "dtype": dt, "shape": [1], "via": "F"})
         specs.append({"op": "bce_with_logits", "dtype": dt, "shape": [1], "via": "M"})
     return specs
@@ -322,7 +328,8 @@ def build(spec):
 def main(tier, seed):
     t0 = time.time()
     specs = enumerate_specs(tier)
-    results = runner.run_pool(__name__, specs, tier, seed, limit=300 if tier == "quick" else 1800)
+    results = runner.run_pool(__name__, specs, tier, seed, limit=300 if tier == "quick" else 3000,
+                              optkw={"max_paths": 64 if tier == "quick" else 1024})
     return runner.finish(
         PROP, tier, seed, results, t0,
         bounds={"inputs and upstream gradients": "[-1e4, 1e4]", "targets": "[0, 1]", "shapes": "elementwise ops on 1 element, "
